@@ -1,72 +1,13 @@
 import NiftyVerif.Core.Proto
 import NiftyVerif.Model.GaussMarkov
-open Lean NiftyVerif.Proto NiftyVerif.GaussMarkov
+import NiftyVerif.Model.RatApprox
+open Lean NiftyVerif.Proto NiftyVerif.GaussMarkov NiftyVerif.RatApprox
 
 /-! Model driver for C29.  `W = K = Rat`.  `sqrt` is exact on squares of rationals and otherwise the floor
     of the root on the 2^-128 grid; `exp` is a Taylor sum with argument halving on the 2^-160 grid
     (both only ever compared in class T; class-E cases use perfect squares and no `exp`). -/
 
 instance : SMul Rat Rat := ⟨fun a b => a * b⟩
-
-def P : Nat := 100
-
-/-- floor of the integer square root (Newton from above; `Nat.sqrt` is too slow under the interpreter) -/
-def isqrt (n : Nat) : Nat :=
-  if n < 2 then n else
-  let rec go (x : Nat) (fuel : Nat) : Nat :=
-    match fuel with
-    | 0 => x
-    | f + 1 => let y := (x + n / x) / 2; if y ≥ x then x else go y f
-  go (2 ^ (Nat.log2 n / 2 + 1)) 200
-
-/-- exact on squares of rationals, else `⌊√(n·d·4^P)⌋ / (d·2^P)` (relative error < 2^-99) -/
-def sqrtRat (x : Rat) : Rat :=
-  if x ≤ 0 then 0 else
-  let n := x.num.toNat
-  let d := x.den
-  let sn := isqrt n
-  let sd := isqrt d
-  if sn * sn == n && sd * sd == d then mkRat sn sd else
-  mkRat (isqrt (n * d * 4 ^ P)) (d * 2 ^ P)
-
-def G : Nat := 140
-
-/-- fixed-point (scale 2^G) Taylor sum of exp(y), |y| ≤ 1/16 -/
-def taylorExpFix (y : Int) : Int := Id.run do
-  let one : Int := (2 ^ G : Nat)
-  let mut term : Int := one
-  let mut s : Int := one
-  for k in [1:30] do
-    term := (term * y) / (one * (k : Nat))
-    s := s + term
-  return s
-
-def expRat (x : Rat) : Rat :=
-  if x == 0 then 1 else
-  -- halve until |y| ≤ 1/16
-  let m := Id.run do
-    let mut m := 0
-    let mut a := x.abs
-    for _ in [0:80] do
-      if a ≤ (1 : Rat) / 16 then break
-      a := a / 2
-      m := m + 1
-    return m
-  let one : Int := (2 ^ G : Nat)
-  let yfix : Int := (x * ((2 ^ G : Nat) : Rat) / ((2 ^ m : Nat) : Rat)).floor
-  Id.run do
-    let mut r := taylorExpFix yfix
-    for _ in [0:m] do
-      r := (r * r) / one
-    return mkRat r (2 ^ G)
-
-/-- table of the values of `f` at the arguments that occur (the model asks for the same roots/exponentials at every
-    index; the interpreter should compute each once) -/
-def tabulate (f : Rat → Rat) (args : List Rat) : Rat → Rat :=
-  let tab := args.eraseDups.map (fun a => (a, f a))
-  fun x => match tab.lookup x with
-    | some v => v
-    | none => f x
 
 def seqOf (l : List Rat) : Nat → Rat := fun k => l.getD k 0
 
